@@ -101,7 +101,7 @@ pub fn regex(rng: &mut Rng) -> String {
     if rng.chance(1, 25) { rng.pick(BAD_REGEXES).to_string() } else { rng.pick(REGEXES).to_string() }
 }
 
-pub const REPLACEMENTS: &[&str] = &["X", "", "$0", "[$1]", "${x}", "$1$2", "<$0>", "é", "-", "$$", "a b", "<${Name}>"];
+pub const REPLACEMENTS: &[&str] = &["X", "", "$0", "[$1]", "${x}", "$1$2", "<$0>", "é", "-", "$$", "a b", "<${Name}>", "$1px", "$2_at_$1", "$1a$0_"];
 pub fn flags(rng: &mut Rng) -> String {
     let mut f: Vec<char> = Vec::new();
     for c in ['g', 'i', 'm', 's'] { if rng.chance(1, 3) { f.push(c); } }
